@@ -127,6 +127,12 @@ fn one_arm64(acc: &mut Acc, a: u64, tramp: Option<u64>, fake: u64, boolv: Option
         }
         Ok(g) => {
             acc.tag("installed");
+            {
+                let now = unsafe { arena::read(a - 16, 48) };
+                if now[..16] != pre[..16] || now[28..] != pre[28..] {
+                    acc.viol("C03", "aarch64:write-outside-12-byte-entry", format!("installation at {a:#x}: bytes outside the 12-byte entry slot changed"));
+                }
+            }
             let mem = mem_direct(ARENA_LO, ARENA_HI);
             let ours = |x: u64| (x >= a && x < a + 12) || owned.iter().any(|&(s, l)| x >= s && x < s + l);
             let run = vkit::a64::run_to(a, &mem, &ours, 12, if boolv.is_none() { Some(fake) } else { None });
